@@ -271,10 +271,13 @@ impl Property for C15 {
             }
         }
         // relaxed multi-source selector (not judged)
+        // processes racing the victim's failure against something else: value, or the victim's error
+        let mut either: BTreeMap<String, String> = BTreeMap::new();
         let mut relaxed_path = None;
         if rng.chance(1, 3) {
             body.push("rl = &v @rel".to_string());
             relaxed_path = Some(fresh_path(&mut next_child));
+            either.insert(relaxed_path.clone().unwrap(), "77".to_string());
             body.push("77 rl".to_string());
             h.u64(0xab);
         }
@@ -286,10 +289,10 @@ impl Property for C15 {
             io_awaiters = true;
             if rng.chance(1, 2) {
                 body.push("r2 = &v @rel2".to_string());
-                let _ = fresh_path(&mut next_child);
+                either.insert(fresh_path(&mut next_child), "1".to_string());
             } else {
                 body.push("r3 = &v @rel3".to_string());
-                let _ = fresh_path(&mut next_child);
+                either.insert(fresh_path(&mut next_child), "1".to_string());
                 body.push("5 r3".to_string());
             }
             h.u64(0xef);
@@ -353,6 +356,7 @@ impl Property for C15 {
                 "values": expect_val,
                 "client": client_expect,
                 "relaxed": relaxed_path,
+                "either": either,
                 "senders": senders,
                 "pollers": pollers,
             }),
@@ -395,6 +399,15 @@ impl Property for C15 {
         if !verr.starts_with("ERR(") {
             v.push(Violation::new("C15", "victim", "did-not-fail", format!("victim {vpath} ended with {verr} instead of a runtime error"), r.steps));
             return v;
+        }
+        // processes whose select races the victim's failure against a message or a timeout, some with an
+        // effect in flight: either outcome is legal, nothing else is (another error, still running)
+        for (p, val) in e["either"].as_object().into_iter().flatten() {
+            let val = val.as_str().unwrap_or("");
+            match r.procs.get(p) {
+                Some(x) if x == val || x == verr => {}
+                other => v.push(Violation::new("C15", "containment", "racing-awaiter-unexpected-outcome", format!("process {p} (one select listing the victim next to another source) ended with {:?}; expected {val} or the victim's error {verr}", other), r.steps)),
+            }
         }
         // (2) every transitive single-source awaiter carries exactly the victim's error
         for p in e["must_carry_victims_error"].as_array().into_iter().flatten() {
